@@ -841,3 +841,13 @@ Proof.
   apply norm_round_rel; try assumption.
   unfold in_long, LONG_MIN, LONG_MAX in *. lia.
 Qed.
+
+(* ---- cdpe_div_eq as it was: rc / c computed as c / c ------------------------------------------- *)
+Lemma cdpe_div_eq_unfixed_refuted :
+  let two := Cdpe (Rdpe fhalf 2) rdpe_zero in      (* 2 + 0i *)
+  let four := Cdpe (Rdpe fhalf 3) rdpe_zero in     (* 4 + 0i *)
+  (* as it was: 2 / 4 = 1 *)
+  (esp (cre (cdpe_div_eq_old two four)) = 1 /\ to_bits (mnt (cre (cdpe_div_eq_old two four))) = to_bits fhalf) /\
+  (* repaired: 2 / 4 = 1/2 *)
+  (esp (cre (cdpe_div_eq two four)) = 0 /\ to_bits (mnt (cre (cdpe_div_eq two four))) = to_bits fhalf).
+Proof. vm_compute. repeat split; reflexivity. Qed.
